@@ -3,14 +3,15 @@ Kruskal forest weight, triangle and k-core counts, existence of a maximal indepe
 min-cut, maximum bipartite matching = minimum vertex cover); the applications are built from the working tree and run on
 generated small graphs with every selectable algorithm variant and 1-8 threads; what they print is parsed and TLC judges every
 result (TraceApps.tla).  The distributed bfs / sssp / cc / k-core applications run under mpirun (1-4 hosts x partition policies x Sync/Async)
-and their complete per-node output is judged the same way.  PageRank (floating point accuracy) is not decided here."""
+and their complete per-node output is judged the same way.  PageRank (pull and push variants) is compared with a fixed-point
+iteration in TLA+ (six decimals) within 0.02 per node."""
 import os, re, json, random, shutil, subprocess, concurrent.futures as cf
 from vlib.common import *
 from vlib import tv, grfile
 
 LEVEL = "model_checking"
 SP = os.path.join(SPECS, "apps")
-APPS = ["bfs", "sssp", "cc", "boruvka", "triangles", "kcore", "indset", "preflowpush", "mcm"]
+APPS = ["bfs", "sssp", "cc", "boruvka", "triangles", "kcore", "indset", "preflowpush", "mcm", "pagerank-pull", "pagerank-push"]
 DAPPS = ["bfs-push", "bfs-pull", "sssp-push", "sssp-pull", "cc-push", "cc-pull", "kcore-push", "kcore-pull"]
 MPIRUN = ["mpirun", "--allow-run-as-root", "--oversubscribe", "--bind-to", "none"]
 
@@ -238,6 +239,15 @@ def jobs_for(rng, thorough):
                     jobs.append((("f", g), adj, "preflowpush", ["--sourceNode=%d" % src, "--sinkNode=%d" % sink, "-t=%d" % t] + var + hl,
                                  dict(k="flow", src=src, sink=sink, variant="%s%s/t%d" % ("".join(var) or "nondet", "".join(hl), t))))
     for g in range(ng):
+        # PageRank: pull variants read the transposed graph, push variants the graph itself; all ranks are printed (<= 9 nodes)
+        adj = gen_directed(rng, zero_ok=False)
+        for algo in ["Topo", "Residual"]:
+            for t in T:
+                jobs.append((("p", g), adj, "pagerank-pull", ["--algo=" + algo, "--transposedGraph", "-t=%d" % t], dict(k="pr", variant="pull/%s/t%d" % (algo, t), transposed=1, norm=1 if algo == "Topo" else 0)))
+        for algo in ["Async", "Sync"]:
+            for t in T:
+                jobs.append((("p", g), adj, "pagerank-push", ["--algo=" + algo, "-t=%d" % t], dict(k="pr", variant="push/%s/t%d" % (algo, t), norm=0)))
+    for g in range(ng):
         adj = gen_bipartite(rng)
         for algo in ["--pfpAlgo", "--ffAlgo", "--abmpAlgo"]:
             for ex in ["--serial", "--parallel"]:
@@ -282,6 +292,14 @@ def parse(app, rec, rc, out):
             r["flow"] = grab(r"Flow is (\d+)", out)
         elif app == "mcm":
             r["card"] = grab(r"Matching of cardinality: (\d+)", out)
+        elif app.startswith("pagerank"):
+            ranks = {}
+            for m in re.finditer(r"^\d+: ([0-9.eE+-]+) (\d+)\s*$", out, re.M):
+                ranks[int(m.group(2))] = int(round(float(m.group(1)) * 1000000))
+            nn = grab(r"Read (\d+) nodes", out)
+            if nn is None or sorted(ranks) != list(range(nn)):
+                raise ValueError("ranks missing")
+            r["vals"] = [ranks[v] for v in range(nn)]
         if any(v is None for v in r.values()):
             raise ValueError("result line missing")
     except Exception as e:
@@ -292,7 +310,7 @@ def parse(app, rec, rc, out):
 def run(ev, vd):
     make(*[fbin("app-" + a) for a in APPS])
     rng = random.Random(ev.seed * 9973 + 20)
-    scratch = os.path.join(BUILD, "tmp", "apps_files")
+    scratch = os.path.join(BUILD, "tmp", "apps_files_%d" % os.getpid())
     shutil.rmtree(scratch, ignore_errors=True)
     os.makedirs(scratch, exist_ok=True)
     jobs = jobs_for(rng, tier() == "thorough")
@@ -304,7 +322,7 @@ def run(ev, vd):
         i, (key, adj, app, args, rec) = ij
         # every run gets its own copy of the input (preflowpush writes a companion file next to it)
         path = os.path.join(scratch, "g%d.gr" % i)
-        grfile.write_gr(path, adj, 4)
+        grfile.write_gr(path, transpose(adj) if rec.get("transposed") else adj, 4)
         rc, out = run_app(app, args, path)
         for p in (path, path + ".pfp"):
             if os.path.exists(p):
@@ -365,7 +383,7 @@ def run(ev, vd):
         vd.violation(sig, "%s (%s) on a %d-node graph: %s" % (rec.get("app"), rec.get("variant"), gr["n"], lines[g][:400]), dict(record=rec, graph=gr))
     ev.assumptions += [
         "results are observed through what the applications print (one reported node per BFS/SSSP run, counts, weights, cardinalities); the independent set itself is not printed, so only 'some maximal independent set has this size' plus the application's own verification is decided",
-        "PageRank (pull / push) is not decided: comparing floating-point ranks within a tolerance is outside what a TLA+ specification can express usefully",
+        "PageRank is judged against an integer fixed-point iteration (six decimals) with an absolute slack of 0.02 per node: gross errors (wrong degrees, dropped or doubled contributions) are decided, accuracy within the applications' own tolerance is not",
         "distributed bfs/sssp/cc/k-core (push and pull) run under mpirun on 1-4 hosts with several partition policies, Sync and Async; distributed pagerank, betweenness centrality, triangle counting and the CPU applications clustering, k-truss, gmetis, matrix completion, points-to are out of scope",
         "graphs are small (<= 9 nodes): the oracle is evaluated by TLC; thread schedules are sampled by repeated real runs"]
     ev.cov["engines"] = ["free", "tv"]
